@@ -3,6 +3,7 @@ package props
 import (
 	"context"
 	"fmt"
+	"sort"
 	"testing"
 	"time"
 
@@ -152,7 +153,12 @@ func c15Custom(t *testing.T, sc *world.Scenario, out *Outcome) {
 			out.violate(P, "new-leader-write-failed", "new-leader-write-failed"+eng, "first write on the new leader failed: %s", r.Err)
 		}
 		// guarded writes on pre-existing keys keep working
+		var ks []string
 		for k := range mBefore.Keys {
+			ks = append(ks, k)
+		}
+		sort.Strings(ks)
+		for _, k := range ks {
 			v, ok := mBefore.At(k, 0)
 			if !ok || v.Tomb {
 				continue
